@@ -289,3 +289,138 @@ def contract_ragged_nonzero(g, M, rows, cols, cnt, pos, rk):
     B = lambda p: z3.Implies(z3.And(0 <= p, p < g.S(g.n), M(p)), z3.And(0 <= rk(p), rk(p) < cnt, pos(rk(p)) == p))
     C = lambda s_, t: z3.Implies(z3.And(0 <= s_, s_ < t, t < cnt), pos(s_) < pos(t))
     return [cnt >= 0], [("nonzero.listed-cells", A, 1), ("nonzero.every-cell-listed", B, 1), ("nonzero.flat-order", C, 2)]
+
+
+def _subset_lemmas(ctx, g, M, nz, fold, ps2):
+    """spec-function lemmas behind subset (each by induction, base + step obligations):
+    F  fold_add(s, e) == rk(e) - rk(s) for s < e   (the add-fold of a boolean row is the number of its true cells)
+    T  PS'(r) == rk(S(r))                             (prefix sums of the per-row counts = rank of the row start)"""
+    n, S, L = g.n, g.S, g.L
+    rk = nz.rk
+    s, e, r = z3.Int("s"), z3.Int("e"), z3.Int("r")
+    size = S(n)
+    ctx.prove("lemmaF.base: fold(s, s+1) == rk(s+1) - rk(s)", z3.Implies(z3.And(0 <= s, s < size), fold(s, s + 1) == rk(s + 1) - rk(s)), pool=[s, s + 1], kind="lemma")
+    ctx.prove("lemmaF.step", z3.Implies(z3.And(0 <= s, s < e, e < size, fold(s, e) == rk(e) - rk(s)), fold(s, e + 1) == rk(e + 1) - rk(s)), pool=[s, e, e + 1], kind="lemma")
+    ctx.assume_forall("lemmaF (by induction on e)", lambda s_, e_: z3.Implies(z3.And(0 <= s_, s_ < e_, e_ <= size), fold(s_, e_) == rk(e_) - rk(s_)), arity=2)
+    if ps2 is not None:
+        ctx.prove("lemmaT.base: PS'(0) == rk(S(0))", ps2(0) == rk(S(0)), pool=[z3.IntVal(0)], kind="lemma")
+        ctx.prove("lemmaT.step", z3.Implies(z3.And(0 <= r, r < n, ps2(r) == rk(S(r))), ps2(r + 1) == rk(S(r + 1))), pool=[r, r + 1, S(r), S(r + 1), n, n - 1], kind="lemma")
+        ctx.assume_forall("lemmaT (by induction on r)", lambda r_: z3.Implies(z3.And(0 <= r_, r_ <= n), ps2(r_) == rk(S(r_))))
+
+
+@register
+class Subset(Family):
+    """subset(mask) with a boolean RaggedArray of the same shape: row r of the result holds exactly the cells of row r whose mask cell is True,
+    in order; same number of rows; a non-boolean mask is refused.  The row counts come from the real np.sum(mask, axis=-1) (the proved _reduce)."""
+    name = "IndexableArray.subset"
+    qualname = "npstructures.raggedarray.indexablearray:IndexableArray.subset"
+    serves = ["C08", "C19"]
+    timeout_ms = 30000
+    assumed = ["numpy boolean-mask gather (flatnonzero rank / position functions)", "numpy.add.reduceat accumulates booleans as integers (audited)",
+               "numpy.cumsum = prefix sums (RaggedShape.__init__, executed here)"]
+
+    def kinds(self):
+        return ["bool", "non-bool"]
+
+    def extra_functions(self):
+        return ["RaggedArray._reduce", "RaggedArray.sum", "RaggedArray.__init__", "RaggedShape.__init__"]
+
+    def _setup(self, ctx):
+        from npstructures import RaggedArray
+        g = sym_ragged(ctx, kind="elem")
+        MD = SymArr.symbolic("mask", g.S(g.n), "bool", bool, assume_len=False)
+        mask = RaggedArray(MD, g.obj)
+        ctx.ghost["g"], ctx.ghost["MD"] = g, MD
+        from .reduce import telescoping
+        telescoping(ctx, g, g.ra._shape.lengths)
+        ctx.add_index(g.n, g.n - 1)
+        return g, MD, mask
+
+    def _ghosts(self, ctx):
+        nz = ctx.ghost["nonzero_facts"][-1] if ctx.ghost.get("nonzero_facts") else None
+        folds = ctx.ghost.get("cache_fold") or {}
+        return nz
+
+    def late_lemmas(self, ctx, kind, exc):
+        if kind != "bool" or isinstance(exc, (IndexError, TypeError)):
+            return
+        g, MD = ctx.ghost["g"], ctx.ghost["MD"]
+        from ..sym.theory import fold_fn
+        from ..sym.arr import nonzero_facts
+        if not ctx.ghost.get("prefix_sums"):
+            return
+        nz = nonzero_facts(MD, "late")
+        fold = fold_fn("add", MD)
+        ps2 = ctx.ghost["prefix_sums"][-1]["ps"]
+        _subset_lemmas(ctx, g, MD.fn, nz, fold, ps2)
+        ctx.prove_then_assume("late.lemma: the per-row counts add up to the number of True cells", ps2(g.n) == nz.cnt, pool=[g.n, g.S(g.n)], kind="lemma")
+
+    def run(self, ctx, kind):
+        from npstructures import RaggedArray
+        from ..sym.theory import fold_fn
+        from ..sym.arr import nonzero_facts
+        g, MD, mask = self._setup(ctx)
+        n, S, L, D, M = g.n, g.S, g.L, g.D.fn, MD.fn
+        if kind == "non-bool":
+            idx = RaggedArray(SymArr.symbolic("idx", S(n), "int", np.int64, assume_len=False), g.obj)
+            try:
+                g.ra.subset(idx)
+            except NotImplementedError:
+                ctx.prove("post.non-boolean selector refused", z3.BoolVal(True))
+                return
+            ctx.prove("post.non-boolean selector refused", z3.BoolVal(False))
+            return
+        out = g.ra.subset(mask)
+        nz = nonzero_facts(MD, "post")
+        rk, pos, cnt = nz.rk, nz.pos, nz.cnt
+        fold = fold_fn("add", MD)
+        ps2 = ctx.ghost["prefix_sums"][-1]["ps"]
+        _subset_lemmas(ctx, g, M, nz, fold, ps2)
+        sh = out._shape
+        OD = out.ravel()
+        ctx.prove("post.same number of rows", I(sh.n_rows) == n)
+        ctx.prove("post.as many cells as True mask cells", dim_term(OD.shape_[0]) == cnt)
+        r = g.row()
+        ctx.add_index(r + 1)
+        base = [r, r + 1, S(r), S(r + 1), n, n - 1]
+        ctx.prove_then_assume("post.row r starts at the rank of its first cell and has as many cells as True mask cells in row r",
+                              z3.And(sh.starts.get(r) == rk(S(r)), sh.lengths.get(r) == rk(S(r + 1)) - rk(S(r))), pool=base)
+        c2 = z3.Int("c2")
+        ctx.skolem(z3.And(0 <= c2, c2 < rk(S(r + 1)) - rk(S(r))))
+        t = rk(S(r)) + c2
+        p = pos(t)
+        pool = base + [c2, t, t + 1, p, p + 1, rk(p), cnt, S(n)]
+        ctx.prove("post.cell c' of result row r is a True-masked cell of source row r", z3.And(OD.get(sh.starts.get(r) + c2) == D(p), S(r) <= p, p < S(r + 1), M(p)), pool=pool)
+        ctx.prove("post.order kept: the next cell of the result row comes from a later source cell", z3.Implies(c2 + 1 < rk(S(r + 1)) - rk(S(r)), p < pos(t + 1)), pool=pool + [pos(t + 1)])
+        q = z3.Int("q")
+        ctx.skolem(z3.And(S(r) <= q, q < S(r + 1), M(q)))
+        ctx.prove("post.every True-masked cell of row r appears in result row r", z3.And(rk(S(r)) <= rk(q), rk(q) < rk(S(r + 1)), pos(rk(q)) == q),
+                  pool=base + [q, q + 1, rk(q), cnt, S(n)], live=[r])
+        ctx.prove("post.operands not modified", z3.BoolVal(g.D.buf.writes == 0 and MD.buf.writes == 0))
+
+    def concretise(self, kind, model, ghost):
+        return {"lengths": [2, 0, 3, 1]}
+
+    def concrete(self, case):
+        from npstructures import RaggedArray
+        ls = case["lengths"]
+        tot = sum(ls)
+        data = np.arange(10, 10 + tot)
+        for pattern in range(3):
+            m = np.array([(i * (pattern + 2)) % 3 != 0 for i in range(tot)], dtype=bool)
+            ra, mk = RaggedArray(data, ls), RaggedArray(m, ls)
+            got = ra.subset(mk).tolist()
+            exp, o = [], 0
+            for l in ls:
+                exp.append([int(data[o + c]) for c in range(l) if m[o + c]])
+                o += l
+            if got != exp:
+                return {"msg": f"subset on lengths {ls} with mask {m.tolist()}: {got}, expected {exp}", "sig": "wrong:subset"}
+
+    def bounded_cases(self, tier, seed):
+        from ..bounded.common import length_vectors
+        for ls in length_vectors(4, 3):
+            yield {"lengths": ls}
+
+    def nontrivial(self, case):
+        return 0 in case["lengths"]
